@@ -107,6 +107,25 @@ pub fn check_set<T: DSet>(ctx: &mut Ctx, rep: &str, ds: &T, m: &MSym, rng: &mut 
     let all_idx: Vec<usize> = (0..=dim).collect();
     let huge = n > 5000;
     let idx_sets: Vec<Vec<usize>> = if exhaustive_subsets { subsets_of(&all_idx) } else { (0..(if huge { 1 } else { 4 })).map(|_| all_idx.iter().cloned().filter(|_| rng.chance(1, 2)).collect()).chain([all_idx.clone()]).collect() };
+    // an index LIST denotes an index set: repeats and other orders must not change what is reported
+    let mut idx_sets = idx_sets;
+    if exhaustive_subsets {
+        for i in 0..=dim {
+            idx_sets.push(vec![i, i]);
+            for j in (i + 1)..=dim {
+                idx_sets.push(vec![j, i]);
+                idx_sets.push(vec![i, j, i]);
+                idx_sets.push(vec![j, j, i]);
+            }
+        }
+        let mut rev = all_idx.clone();
+        rev.reverse();
+        idx_sets.push(rev);
+    } else if !huge {
+        let (i, j) = (rng.below(dim + 1), rng.below(dim + 1));
+        idx_sets.push(vec![i, j, i]);
+        idx_sets.push(vec![j, i, i, j]);
+    }
     let seed_lists: Vec<Vec<usize>> = if exhaustive_subsets && n <= 5 {
         let mut l: Vec<Vec<usize>> = vec![];
         for a in 1..=n {
@@ -126,6 +145,9 @@ pub fn check_set<T: DSet>(ctx: &mut Ctx, rep: &str, ds: &T, m: &MSym, rng: &mut 
         }
         l.push((1..=n).collect());
         l.push((1..=n).rev().collect());
+        // seed lists with repeats
+        l.push(vec![n, n]);
+        l.push(vec![1, n, 1]);
         l
     } else {
         let mut l = vec![(1..=n).collect::<Vec<_>>(), (1..=n).rev().collect()];
